@@ -54,6 +54,21 @@ CHECKS.update({
     },
 })
 
+CHECKS.update({
+    "C04": {
+        "technique": "deterministic simulation: focused decision-table worlds (node kind x modifiers x input class x placement x mode) under simulator-chosen visit orders, sibling outcomes and recycled pools; model + recording callbacks + sentinels",
+        "text": "Every node kind with every Required/Optional/Default/NotNil combination is placed at top level, among catching/failing siblings, in a slice, behind a pointer and in a struct inside a slice and fed each absent-looking and present-but-falsy input class in both modes; the decision table of the statement is checked through issues, recording tests and sentinel-prefilled destinations while the simulator varies the node's position in every visit order and the pool contents.",
+        "note": MODEL,
+        "design": "DESIGN.md §3 C04",
+    },
+    "C12": {
+        "technique": "deterministic simulation: recording/failing callbacks (injected callback errors) under simulator-chosen visit orders; invocation log vs. reference model evaluated in lockstep with the chosen orders",
+        "text": "Callbacks on every node of nested schemas record argument type, value, identity with the node's destination address and ctx.Get of every key; PostTransforms return injected errors; the log is compared with the model evaluated under exactly the field visit orders the simulator chose (which decide whether an issue existed at that moment).",
+        "note": MODEL,
+        "design": "DESIGN.md §3 C12",
+    },
+})
+
 NOT_APPLICABLE = {
     "C03": "pure function of (schema options, input): no schedule, history, fault or shared state enters it; DESIGN.md §4",
     "C17": "builder-time semantics, a pure function of the chain of builder calls; nothing nondeterministic or faulty to simulate; DESIGN.md §4",
